@@ -322,9 +322,9 @@ class ApiWorld(ClientWorld):
             self.check_timers(label)
         if self.PROP == "C08":
             self.check_metadata_view(label)
-        if label.split(":")[0] in ("refuse", "drop", "silent", "bclose") or "err=" in label:
+        if label.split(":")[0] in ("refuse", "drop", "silent", "bclose", "dnsfail") or "err=" in label:
             self.reacted = True
-        if label.split(":")[0] in ("refuse", "drop", "bclose") or "err=" in label:
+        if label.split(":")[0] in ("refuse", "drop", "bclose", "dnsfail") or "err=" in label:
             self.faults_other_than_delay = True
         self.step += 1
 
